@@ -17,21 +17,22 @@ ASSUMPTIONS = [
     "no byzantine evidence and no absent validators in the generated blocks",
     "maturity option changes are injected with the calls the governance update makes (governance.Store.SetStakingOptions + SetLUH "
     "on the deliver state), not through a full proposal life cycle",
-    "histories in which the application calls logger.Fatal (os.Exit; a negative validator power reaching the fee distribution, still "
-    "reachable through the record-deleted finding: findings/C11_observation_negative_power_exit.json) are run in a child process "
-    "and dropped (counted in coverage.crashed_histories; C18/C10 matter)",
+    "every history runs in a child process; one in which the application exits (logger.Fatal) is dropped and counted in "
+    "coverage.crashed_histories (none since fix e681066; findings/C11_observation_negative_power_exit.json is a corpus case that must run to the end)",
+    "C11_validator_record_partial additionally assumes: no validator record reaches 2^63 whole OLT; PenaltyBasePercentage >= 0, "
+    "PenaltyBaseDecimals > 0; no postponed penalty refused by the purge-height rule (the last one is the known finding C11.postponed_penalty_blocked)",
 ]
 
 # trigger code -> trigger id
-# triggers 1 and 2 were repaired by fix 48c76fc (status "fixed" in KNOWN_FINDINGS.json): they explain nothing any more —
+# triggers 1, 2 (fix 48c76fc/d276709), 3 (e681066) and 4 (cb71748) are repaired (status "fixed"): they explain nothing any more —
 # a monitor violation or a model mismatch downstream of them is an ordinary VIOLATION
 TRIGGERS = {1: "C11.stake_amount_ge_2p63", 2: "C11.negative_amount_deliver", 3: "C11.validator_record_deleted_with_stake",
-            4: "C11.penalty_not_atomic", 5: "C11.withdraw_names_other_validator"}
+            4: "C11.penalty_not_atomic", 5: "C11.withdraw_names_other_validator", 6: "C11.postponed_penalty_blocked"}
 # monitor code -> (what, trigger codes that explain it)
 MONITORS = {
-    11: ("validator total (st__t_) differs from the sum of its delegators' effective amounts", [4]),
-    12: ("delegator effective total (st__d_e_) differs from the sum over validators", [4]),
-    13: ("validator record stake (v_) differs from st__t_ (+ pending penalty)", [3]),
+    11: ("validator total (st__t_) differs from the sum of its delegators' effective amounts", []),
+    12: ("delegator effective total (st__d_e_) differs from the sum over validators", []),
+    13: ("validator record stake (v_) differs from st__t_ (+ pending penalty)", [6]),
     14: ("withdrawn exceeds staked minus penalised (whole OLT)", []),
     15: ("paid out exceeds paid in minus penalties (base units, balance side)", []),
     16: ("WITHDRAW accepted while a validator owned by the delegator is frozen", [5]),
@@ -54,7 +55,7 @@ def evaluate(ctx, vh, args):
     if rc != 0:
         raise Broken("C11 harness run failed", out[-3000:])
     rep = json.load(open(os.path.join(out_dir, "c11_report.json")))
-    cases = json.load(open(os.path.join(out_dir, "c11_cases.json")))
+    cases = json.load(open(os.path.join(out_dir, "c11_cases.json"))) or []
     ok, log = common.coq_make(["theories/StakeCheck.vo"])
     if not ok:
         raise Broken("the model (Stake.v / StakeCheck.v) does not build", log[-3000:])
@@ -63,7 +64,7 @@ def evaluate(ctx, vh, args):
         return common.coqc_file(f, cwd=out_dir)
     mm, mon, trg = [], [], []
     with ThreadPoolExecutor(max_workers=12) as ex:
-        for ok, cout in ex.map(one, rep["files"]):
+        for ok, cout in ex.map(one, rep.get("files") or []):
             if not ok:
                 raise Broken("the model could not be evaluated on the recorded histories (cases file does not check)", cout[-3000:])
             mm += triples(common.parse_print(cout, "MMv"))
@@ -148,6 +149,15 @@ def corpus(ctx, vh):
             if not any(t == code for (_, _, t) in trg):
                 raise Broken("the witness of known finding %s no longer fires its trigger on the implementation "
                              "(repaired? then mark it fixed and update the model)" % f["trigger"])
+    # the history that used to end in a node exit (negative validator power reaching the fee distribution; repaired by
+    # e681066) must run to the end and satisfy every monitor
+    extra = os.path.join(common.VERIF, "findings", "C11_observation_negative_power_exit.json")
+    if os.path.exists(extra):
+        rep, cases, mm, mon, trg = evaluate(ctx, vh, ["-plan", extra])
+        n += 1
+        if rep.get("crashed_histories") or mon or mm:
+            what = "the application exits on this history" if rep.get("crashed_histories") else "monitor or model mismatch on the former node-exit history"
+            ctx.violation("corpus_negative_power_exit", {"kind": what, "plan": json.load(open(extra)), "monitors": mon, "mismatches": mm})
     return n
 
 
